@@ -31,8 +31,10 @@ SRC = '/db/Data.fs'
 OUT = '/db/Recovered.fs'
 
 ASSUMPTIONS = [
-    'destination mapping: only histories without undo records or repeated stores (MappingStorage has no restore(); the '
-    'documented store() fallback of copy() cannot reproduce those)',
+    'destination mapping: only histories without undo records, un-creations, deletions or repeated stores: a MappingStorage has '
+    'neither restore() nor undo nor deleteObject, so it cannot represent "this object does not exist any more" at all (copy() then '
+    'hands it data None through the store() fallback and load returns (None, tid) - a limit of that destination kind, stated here, '
+    'not claimed as a finding)',
     'blob_copy runs on a scratch directory of the real file system (as C13); blob contents are short concrete byte strings',
     'source histories: templates T1-T6, T12 (two undos of one object in one transaction, later change, undo of it), (undo records, un-creation, restore with back-pointer hints, deleteObject) and a '
     'packed graph history; destination kinds file and mapping',
